@@ -27,7 +27,7 @@ from collections.abc import Iterable, Iterator
 from typing import overload
 
 from .hedge import Any
-from .library import array, nan, representation, scalar, settings
+from .library import array, nan, representation, scalar, settings, to_float
 from .norm import SNorm, TNorm
 from .operation import Op
 from .types import Scalar
@@ -755,8 +755,11 @@ class Rule:
 
         """
         result = [Rule.IF, self.antecedent.text, Rule.THEN, self.consequent.text]
-        if not Op.is_close(self.weight, 1.0):
-            result.extend([Rule.WITH, Op.str(self.weight)])
+        # the weight is omitted when the value that is printed equals 1.0 (decided on the printed
+        # value, so that exporting, importing, and exporting again yields the same text)
+        weight = Op.str(self.weight)
+        if not Op.is_close(to_float(weight), 1.0):
+            result.extend([Rule.WITH, weight])
         return " ".join(result)
 
     @text.setter
